@@ -10,7 +10,7 @@
  *         E2 key out(E0),     msg out(E1) || 01 || seed   E3 key out(E2), msg out(E1);   K = out(E2), V = out(E3)
  *   generate(out, outlen):  h.3 retry step ONLY when retry is set:  K = HMAC_K(V || 0x00), V = HMAC_K(V);
  *                 h.2 per 32-byte round: V = HMAC_K(V), next min(32, remaining) output bytes = V;  retry = 1
- *   finalize: no effect.
+ *   finalize: callable on any state (no effect is promised or asserted).
  * Digest bytes are compared through the ghost index dk (one arbitrary byte of 32), stream bytes through
  * (epoch we, position wpos), key bytes through kk. */
 #define HASH_SPEC_HMAC_CONTRACTS
@@ -82,7 +82,7 @@ void h_rfc_gen(void) {
     out = malloc(outlen ? outlen : 1); __CPROVER_assume(out != NULL);
     memcpy(rng.k, k0, 32); memcpy(rng.v, v0, 32); rng.retry = retry0;
     hc.fn_sha256_compression = secp256k1_sha256_transform;
-    HMACS_RESET(); g_hwe = we; g_hwpos = wpos; g_hkk = kk; g_hdk = dk; verif_oi = oi; g_mc_base = NULL; g_mc_big = out; g_mc_big_idx = oi; g_mc_calls = 0;
+    HMACS_RESET(); g_hwe = we; g_hwpos = wpos; g_hkk = kk; g_hdk = dk; verif_oi = oi; g_mc_base = NULL; g_mc_big = out; g_mc_big_idx = oi;
 
     secp256k1_rfc6979_hmac_sha256_generate(&hc, &rng, out, outlen);
 
@@ -126,12 +126,12 @@ void h_rfc_gen(void) {
     REACH("rfc6979_generate end");
 }
 
+/* secp256k1_rfc6979_hmac_sha256_finalize: hash.h promises nothing about its effect (it may or may not wipe
+ * the generator); only that it can be called on any generator state without undefined behaviour. */
 void h_rfc_finalize(void) {
-    INPUT_ARR(unsigned char, k1, 32); INPUT_ARR(unsigned char, v1, 32); INPUT(int, retry1); INPUT(unsigned, j);
+    INPUT_ARR(unsigned char, k1, 32); INPUT_ARR(unsigned char, v1, 32); INPUT(int, retry1);
     secp256k1_rfc6979_hmac_sha256 rng;
-    __CPROVER_assume(j < 32);
     memcpy(rng.k, k1, 32); memcpy(rng.v, v1, 32); rng.retry = retry1;
     secp256k1_rfc6979_hmac_sha256_finalize(&rng);
-    __CPROVER_assert(rng.k[j] == k1[j] && rng.v[j] == v1[j] && rng.retry == retry1, "C05 rfc6979_finalize: no effect");
     REACH("rfc6979_finalize end");
 }
